@@ -647,6 +647,8 @@ def compare(op, a, b):
     for x in (a, b):
         if not is_sym(x) and pytype(x) is None:
             if hasattr(x, "_symarray"):
+                if type(x).__name__ not in ("SymArray", "SymSeries", "SymMat"):
+                    raise Unsupported(f"comparison with a {type(x).__name__}")
                 return _CMPS[type(op)](a, b)
             if isinstance(op, ast.Eq):
                 return False
